@@ -141,6 +141,18 @@ def rebuildAuxOld (cs : Nat) : Nat → Nat → Bytes → Bytes × Nat
 
 def rebuildOld (cs : Nat) (buf : Bytes) : Bytes × Nat := rebuildAuxOld cs (buf.length + 1) 0 buf
 
+/-! ### the memory check of `Program.store_line` (what MERGE, CHAIN MERGE, ASCII LOAD and typing a line go through)
+  `pos` = buffer position where the line goes, `restLen` = bytes of the buffer from `afterpos` (the first
+  line with a greater number) to its end, `length` = length of the tokenised new line, `stackStart` =
+  `memory.stack_start()`.  The line that is replaced (the bytes `pos .. afterpos`) is not counted. -/
+
+/-- `if self.code_start + 1 + pos + length + len(rest) - 3 > self._memory.stack_start(): raise Out of memory` -/
+def storeOom (cs stackStart pos length restLen : Nat) : Bool :=
+  decide ((cs + 1 + pos + length + restLen : Int) - 3 > stackStart)
+
+/-- a program buffer of `size` bytes is acceptable to that check (what it demands of the FINAL program) -/
+def programFits (cs stackStart size : Nat) : Prop := (cs + 1 + size : Int) - 3 ≤ stackStart
+
 /-- program memory: what PEEK sees of the program, the first `size()` bytes of the buffer -/
 def Image.memory (img : Image) : Bytes := img.buf.take img.size
 
